@@ -38,7 +38,43 @@ theorem Automaton.actionOf_nonerror {A : Automaton} {s a : Nat} {x : Action}
   unfold Automaton.actionOf at h
   split at h
   · rename_i y hy; rw [hy, h]
-  · split at h <;> (subst h; simp [Action.isError] at hx)
+  · unfold Automaton.defaultAction at h
+    split at h <;> (subst h; simp [Action.isError] at hx)
+
+theorem Automaton.defaultAction_isError (A : Automaton) (s : Nat) : (A.defaultAction s).isError = true := by
+  unfold Automaton.defaultAction; split <;> rfl
+
+/-- a non-error action of `parse` is a table entry for the symbol of `tokens[cursor]`, which
+is not a client token carrying the end-of-input marker -/
+theorem nextAction_nonerror {A : Automaton} {w : List Token} {s i : Nat} {x : Action}
+    (h : nextAction A w s i = x) (hx : x.isError = false) :
+    clientEoi A w i = false ∧ A.entry s (lookahead A w i) = some x := by
+  unfold nextAction at h
+  split at h
+  · subst h; rw [Automaton.defaultAction_isError] at hx; cases hx
+  · rename_i hc
+    exact ⟨by simpa using hc, Automaton.actionOf_nonerror h hx⟩
+
+theorem nextAction_of_not_client {A : Automaton} {w : List Token} {s i : Nat}
+    (h : clientEoi A w i = false) : nextAction A w s i = A.actionOf s (lookahead A w i) := by
+  simp [nextAction, h]
+
+/-- the end-of-input symbol under the cursor that is not a client token is the real end -/
+theorem length_le_of_eoi {A : Automaton} {w : List Token} {k : Nat}
+    (hc : clientEoi A w k = false) (h : lookahead A w k = A.eoi) : w.length ≤ k := by
+  by_cases hk : k < w.length
+  · exfalso
+    have e : w[k]? = some w[k] := List.getElem?_eq_getElem hk
+    simp only [lookahead, e] at h
+    simp [clientEoi, e, h] at hc
+  · exact Nat.le_of_not_lt hk
+
+theorem clientEoi_false_of_forall {A : Automaton} {w : List Token} (hw : ∀ t ∈ w, t.sym ≠ A.eoi) (i : Nat) :
+    clientEoi A w i = false := by
+  unfold clientEoi
+  cases h : w[i]? with
+  | none => rfl
+  | some t => simpa using hw t (List.mem_of_getElem? h)
 
 theorem Cert.itemsOf_nil_of_ge {C : Cert} {s : Nat} (h : C.items.size ≤ s) : C.itemsOf s = [] := by
   simp [Cert.itemsOf, Array.getElem?_eq_none h]
